@@ -138,6 +138,16 @@ func C12(e *Env) {
 			own := fmt.Sprintf("%s/own_%d.bin", P, id)
 			must(os.WriteFile(filepath.Join(root, own), tree.Content(int64(id)*7919, 100000+int64(id%7)*1000), 0o644))
 			reqs := c12Session(rand.New(rand.NewSource(rng.Int63())), alpha, P, own, rd.reqs)
+			// the session alone first: what this client gets when nobody else is connected. A session
+			// that is not as modelled even alone is another property's business and is left out.
+			alone := RunLockstepOpt(addr, w, reqs, e.Watchdog, LockOpt{})
+			os.RemoveAll(filepath.Join(root, P[1:]))
+			privateTree(root, P[1:])
+			must(os.WriteFile(filepath.Join(root, own), tree.Content(int64(id)*7919, 100000+int64(id%7)*1000), 0o644))
+			if alone.Fail != nil {
+				run.Count("sessions_not_as_modelled_even_alone_left_out", 1)
+				continue
+			}
 			wg.Add(1)
 			go func() {
 				defer wg.Done()
